@@ -530,6 +530,11 @@ def check_cli_output(ctx, case, sc, samples, rin, rout, tin, tout, phased_sample
             for key in keys_a:
                 if key not in ("GT", "PS", "HS") and va.get(key) != vb.get(key, "."):
                     fail(f"{where} {s}: FORMAT/{key} {va.get(key)} -> {vb.get(key)}", "cli-format-values")
+            if "" in tb[2][si].split(":") and "" not in ta[2][si].split(":"):
+                # F24: a call that was well-formed in the input is written with an empty FORMAT value (not even "."):
+                # htslib itself warns when reading it back and drops the value
+                fail(f"{where} {s}: call {ta[2][si]!r} is written as {tb[2][si]!r} (FORMAT {tb[1]}): empty FORMAT value",
+                     "cli-empty-format-value")
             if s not in phased_samples:
                 if va.get("GT") != vb.get("GT") or va.get("PS", ".") != vb.get("PS", "."):
                     fail(f"{where} {s}: call of a sample that is not being phased changed {ta[2][si]} -> {tb[2][si]}",
